@@ -201,6 +201,7 @@ impl Machine {
                 self.model.push(RT::Leaf { id, syn, locs: vec![], span: if syn { Some(3) } else { None } });
             }
             Op::At => {
+                self.next_name = next_name_of(&self.model) as u32;
                 let name = format!("p{}", self.next_name);
                 self.next_name += 1;
                 let e = self.real.pop().unwrap();
@@ -208,6 +209,7 @@ impl Machine {
                 self.model.last_mut().unwrap().locs_mut().insert(0, name);
             }
             Op::AtSame => {
+                self.next_name = next_name_of(&self.model) as u32;
                 let name = format!("p{}", self.next_name.saturating_sub(1));
                 let e = self.real.pop().unwrap();
                 self.real.push(e.at(&name));
@@ -537,6 +539,9 @@ impl S {
 }
 
 struct TreeModel {
+    /// distinct successor states seen by `next_state` (sharded; stateright's own counter is
+    /// not stable under parallel search)
+    seen: Vec<Mutex<std::collections::HashSet<u64>>>,
     depth: usize,
     spans: bool,
     only_spans: bool,
@@ -545,11 +550,36 @@ struct TreeModel {
     tally: Mutex<Tally>,
 }
 
+/// The next fresh location name is a function of the reference stack (1 + the largest index still
+/// present), not of the history: `into_iter` drops a bundle's own locations, and two histories
+/// reaching the same stack must have the same successors for the merge to be deterministic.
+fn next_name_of(model: &[RT]) -> usize {
+    fn walk(t: &RT, best: &mut Option<usize>) {
+        let (locs, kids): (&Vec<String>, &[RT]) = match t {
+            RT::Leaf { locs, .. } => (locs, &[]),
+            RT::Multi { locs, kids, .. } => (locs, kids),
+        };
+        for l in locs {
+            if let Some(n) = l.strip_prefix('p').and_then(|x| x.parse::<usize>().ok()) {
+                *best = Some(best.map_or(n, |b| b.max(n)));
+            }
+        }
+        for k in kids {
+            walk(k, best);
+        }
+    }
+    let mut best = None;
+    for t in model {
+        walk(t, &mut best);
+    }
+    best.map_or(0, |b| b + 1)
+}
+
 fn model_step(model: &[RT], hist: &[Op], op: Op) -> Vec<RT> {
     // pure model-side transition (no real errors involved)
     let mut m = model.to_vec();
     let next_id = hist.iter().filter(|o| matches!(o, Op::Leaf | Op::SynLeaf)).count() as u32;
-    let next_name = hist.iter().filter(|o| **o == Op::At).count();
+    let next_name = next_name_of(model);
     let next_span = (hist.iter().filter(|o| **o == Op::WithSpan).count() % 3) as u8;
     match op {
         Op::Leaf => m.push(RT::Leaf { id: next_id, syn: false, locs: vec![], span: None }),
@@ -608,6 +638,13 @@ impl Model for TreeModel {
         let mut hist = s.hist.clone();
         hist.push(a);
         let next = S { model, hist };
+        {
+            use std::hash::{Hash, Hasher};
+            let mut h = std::collections::hash_map::DefaultHasher::new();
+            next.hash(&mut h);
+            let k = h.finish();
+            self.seen[(k % self.seen.len() as u64) as usize].lock().unwrap().insert(k);
+        }
         // Every TRANSITION is replayed on the real code and judged, not only every state: with
         // states merged on the reference stack, a transition into an already visited state
         // would otherwise never be compared with the implementation.
@@ -666,9 +703,11 @@ fn violation(prop: &str, hist: &[Op], msg: String) -> Violation {
 
 /// Runs the exploration and returns the tally (used by C04 directly and by C03 for spans).
 pub fn explore(prop: &'static str, depth: usize, spans: bool, only_spans: bool) -> (Tally, serde_json::Value) {
-    let model = TreeModel { depth, spans, only_spans, prop, transitions: AtomicU64::new(0), tally: Mutex::new(Tally::default()) };
-    let checker = model.checker().threads(16).spawn_bfs().join();
-    let states = checker.unique_state_count() as u64;
+    let model = TreeModel { seen: (0..64).map(|_| Mutex::new(Default::default())).collect(), depth, spans, only_spans, prop, transitions: AtomicU64::new(0), tally: Mutex::new(Tally::default()) };
+    let threads: usize = std::env::var("C04_THREADS").ok().and_then(|s| s.parse().ok()).unwrap_or(16);
+    let checker = model.checker().threads(threads).spawn_bfs().join();
+    // distinct states = the initial state + distinct successors
+    let states = 1 + checker.model().seen.iter().map(|m| m.lock().unwrap().len() as u64).sum::<u64>();
     let maxd = checker.max_depth();
     let m = checker.model();
     let mut t = std::mem::take(&mut *m.tally.lock().unwrap());
